@@ -296,6 +296,64 @@ def opEnergy : Op K := fun n a =>
   let m := 6 * n[0]!
   #[energy m (vec a 0) (vec a m)]
 
+/-! geometry transformations: ints nx ny sym ; floats: ref_axis_pos, DV…, in_mesh -/
+
+def opTaper : Op K := fun n a =>
+  let nx := n[0]!; let ny := n[1]!; let sym := flag n 2
+  outMesh #[] nx ny (Geo.taper nx ny sym (at_ a 0) (mesh a 2 ny) (at_ a 1))
+
+/-- the repaired analytic partial d mesh / d taper -/
+def opTaperPartial : Op K := fun n a =>
+  let nx := n[0]!; let ny := n[1]!; let sym := flag n 2
+  outMesh #[] nx ny (Geo.taperPartial nx ny sym (at_ a 0) (mesh a 2 ny))
+
+def opScaleX : Op K := fun n a =>
+  let nx := n[0]!; let ny := n[1]!
+  outMesh #[] nx ny (Geo.scaleX nx (at_ a 0) (mesh a (1 + ny) ny) (vec a 1))
+
+def opSweep : Op K := fun n a =>
+  let nx := n[0]!; let ny := n[1]!; let sym := flag n 2
+  outMesh #[] nx ny (Geo.sweep ny sym (mesh a 1 ny) (at_ a 0))
+
+def opDihedral : Op K := fun n a =>
+  let nx := n[0]!; let ny := n[1]!; let sym := flag n 2
+  outMesh #[] nx ny (Geo.dihedral ny sym (mesh a 1 ny) (at_ a 0))
+
+/-- ints: nx ny axis(0,1,2) ; floats: shear[ny] in_mesh -/
+def opShear : Op K := fun n a =>
+  let nx := n[0]!; let ny := n[1]!; let ax := n[2]!
+  let m := mesh a ny ny
+  let s := vec a 0
+  outMesh #[] nx ny (if ax = 0 then Geo.shearX m s else if ax = 1 then Geo.shearY m s else Geo.shearZ m s)
+
+def opStretch : Op K := fun n a =>
+  let nx := n[0]!; let ny := n[1]!; let sym := flag n 2
+  outMesh #[] nx ny (Geo.stretch nx ny sym (at_ a 0) (mesh a 2 ny) (at_ a 1))
+
+/-- ints: nx ny sym rotate_x ; floats: pos twist[ny] in_mesh -/
+def opRotate : Op K := fun n a =>
+  let nx := n[0]!; let ny := n[1]!; let sym := flag n 2; let rx := flag n 3
+  outMesh #[] nx ny (Geo.rotate nx ny sym rx (at_ a 0) (mesh a (1 + ny) ny) (vec a 1))
+
+/-- the whole chain, materialised stage by stage.
+    ints: nx ny sym ; floats: pos taper chord[ny] sweep xshear[ny] span yshear[ny] dihedral zshear[ny] twist[ny] mesh -/
+def opGeometryChain : Op K := fun n a =>
+  let nx := n[0]!; let ny := n[1]!; let sym := flag n 2
+  let pos := at_ a 0
+  let oChord := 2; let oSweep := oChord + ny; let oXs := oSweep + 1; let oSpan := oXs + ny; let oYs := oSpan + 1
+  let oDih := oYs + ny; let oZs := oDih + 1; let oTw := oZs + ny; let oMesh := oTw + ny
+  let m := mesh a oMesh ny
+  let a1 := outMesh #[] nx ny (Geo.taper nx ny sym pos m (at_ a 1))
+  let a2 := outMesh #[] nx ny (Geo.scaleX nx pos (mesh a1 0 ny) (vec a oChord))
+  let a3 := outMesh #[] nx ny (Geo.sweep ny sym (mesh a2 0 ny) (at_ a oSweep))
+  let a4 := outMesh #[] nx ny (Geo.shearX (mesh a3 0 ny) (vec a oXs))
+  let a5 := outMesh #[] nx ny (Geo.stretch nx ny sym pos (mesh a4 0 ny) (at_ a oSpan))
+  let a6 := outMesh #[] nx ny (Geo.shearY (mesh a5 0 ny) (vec a oYs))
+  let a7 := outMesh #[] nx ny (Geo.dihedral ny sym (mesh a6 0 ny) (at_ a oDih))
+  let a8 := outMesh #[] nx ny (Geo.shearZ (mesh a7 0 ny) (vec a oZs))
+  let m := mesh a8 0 ny
+  outMesh #[] nx ny (Geo.rotate nx ny sym true pos m (vec a oTw))
+
 def ops : List (String × Op K) := [
   ("ComputeNodes", opComputeNodes),
   ("LoadTransfer", opLoadTransfer),
@@ -331,7 +389,16 @@ def ops : List (String × Op K) := [
   ("FailureExact", opFailureExact),
   ("SectionPropertiesTube", opSectionPropertiesTube),
   ("NonIntersectingThickness", opNonIntersectingThickness),
-  ("Energy", opEnergy)
+  ("Energy", opEnergy),
+  ("Taper", opTaper),
+  ("TaperPartial", opTaperPartial),
+  ("ScaleX", opScaleX),
+  ("Sweep", opSweep),
+  ("Dihedral", opDihedral),
+  ("Shear", opShear),
+  ("Stretch", opStretch),
+  ("Rotate", opRotate),
+  ("GeometryChain", opGeometryChain)
 ]
 
 end OAS.Driver
